@@ -146,7 +146,8 @@ def spec_check(c, rec, header):
         v = wf(text, ui)
         if v:
             return "WF: " + v
-        if is_pure(text):
+        if is_pure(text) or (c["meta"].get("kind") == "digits-colon" and "=" not in text):
+            # (digits-colon lines: the ':' between two digit runs that are no time of day is an operator)
             exp = pure_tokens(text)
             if ui != exp:
                 return "EXACT: %r reports %r, expected %r" % (text, ui, exp)
@@ -293,6 +294,10 @@ def generate(rng, tier):
         core = core % ((d, mword) if core.startswith("%d") else (mword, d))
         cases.append(mk(" " * rng.randint(1, 5) + core + " " * rng.randint(0, 3) + "#" + rng.choice(["", " note", " " + mword, " 5 + 5"]),
                         lang, "indent-comment"))
+    # a digit run directly in front of `:dd` that is not a time of day: three plain tokens, or a time that starts at the
+    # first digit - never a highlight that starts inside the digit run
+    for l in ["100:30", "123:45 + 1", "25:30", "1234:56:78", "99:99", "7:5", "2021:12", "250:15 * 2"]:
+        cases.append(mk(l, "en", "digits-colon"))
     # month / zone words after text whose case image changes length (known finding C17-casemap)
     for l, lang in [("ıııı est 12:30", "en"), ("İİİ 5 march 2020", "en"), ("İİ march 5", "en"), ("ǰǰ est 12:30", "en"),
                     ("İİİ 5 mart", "tr"), ("KK 12:30 est", "en"), ("ſſſ gmt 10:00", "en")]:
